@@ -317,7 +317,6 @@ func (r *runner) playValid(t template) {
 		r.step(2, txCase{kind: t.kind, bytes: raw})
 	}
 	r.step(3, txCase{kind: t.kind, mut: "replay-next-block", bytes: raw})
-	r.kept = append(r.kept, txCase{kind: t.kind, bytes: raw})
 }
 
 // replayAll restarts the application and resubmits every transaction accepted so far.
